@@ -44,7 +44,14 @@ pub struct C02 {
     /// (seed, start, end) of decimal digit runs in the seed files (text-number class)
     num_runs: Vec<(usize, usize, usize)>,
     n_textnum: u64,
+    /// (seed, chunk index, number of payload bytes covered) of the text chunks of the IcyDraw seeds
+    icy_chunks: Vec<(usize, usize, usize)>,
+    n_icychunk: u64,
 }
+
+/// values planted into the first bytes of an IcyDraw chunk payload: the small selector values (role, mode, flags ...), the
+/// byte extremes, and +1 / -1
+const ICY_CHUNK_VALUES: [i16; 11] = [0, 1, 2, 3, 4, 5, 0x7F, 0x80, 0xFF, -1, -2];
 
 const FLIP_VALUES: [i16; 7] = [0, 1, 0x7F, 0x80, 0xFF, -1, -2]; // -1 => +1, -2 => -1 (relative)
 
@@ -218,6 +225,51 @@ impl C02 {
                 "text-number",
             );
         }
+        let k7 = k6 - self.n_textnum;
+        if k7 < self.n_icychunk {
+            // a byte of the *decoded* payload of a chunk of an IcyDraw file (the file itself is a PNG: corrupting its bytes
+            // fails the CRC or the inflater and never reaches the chunk reader)
+            let mut r = k7;
+            let v = ICY_CHUNK_VALUES[(r % ICY_CHUNK_VALUES.len() as u64) as usize];
+            r /= ICY_CHUNK_VALUES.len() as u64;
+            let mut t = 0;
+            loop {
+                let n = self.icy_chunks[t].2 as u64;
+                if r < n {
+                    break;
+                }
+                r -= n;
+                t += 1;
+            }
+            let (si, ci, _) = self.icy_chunks[t];
+            let s = &self.seeds[si];
+            let o = r as usize;
+            let mut bytes = s.bytes.clone();
+            let mut what = String::new();
+            if let Some(mut chunks) = files::png_split(&s.bytes) {
+                if let Some((kw, mut payload)) = files::ztxt_decode(&chunks[ci]) {
+                    if o < payload.len() {
+                        payload[o] = match v {
+                            -1 => payload[o].wrapping_add(1),
+                            -2 => payload[o].wrapping_sub(1),
+                            x => x as u8,
+                        };
+                        what = format!("{kw} payload byte@{o} := {v}");
+                        chunks[ci] = files::ztxt_encode(&kw, &payload);
+                        bytes = files::png_join(&chunks);
+                    }
+                }
+            }
+            return (
+                LoadCase {
+                    api: s.api.clone(),
+                    ext: s.ext.clone(),
+                    bytes,
+                    origin: format!("{} {what}", s.name),
+                },
+                "icy-chunk-byte",
+            );
+        }
         // random
         let mut rng = ctx.rng(k);
         let si = rng.usize(self.seeds.len());
@@ -373,7 +425,7 @@ impl Prop for C02 {
         "C02"
     }
     fn rule(&self) -> &'static str {
-        "seed corpus = output of every engine writer (14 formats, with/without SAUCE and comments, compressed/raw) on 10 generated documents incl. ice-mode 80-column pictures (ADF/IDF), an ATASCII buffer, multi-layer/custom-font/large-palette IcyDraw, a hand-made PETSCII file, a feature ANSI file, PSF1/PSF2/raw fonts, the shipped TDF font, 5 palette formats, a bare SAUCE record. cases: (truncation) every prefix length of every seed (dense for small files and in header/tail regions, strided beyond); (byte-corruption) every byte of the first 160 and last 140 bytes x {0,1,0x7F,0x80,0xFF,+1,-1}; (cross-extension) every seed under 27 extensions incl. unknown and upper-case; (grammar) token streams in the grammar of the format's own emulation (ANSI incl. modes/margins/macros, Avatar, PCBoard, Ctrl-A, Renegade, PETSCII, ATASCII, ASCII) loaded as files, with and without state prefix and SAUCE tail; (nul-free) every seed with all 0x00 bytes after offset 0/8/16/24/32/48/64 replaced by 0xFF, combined with each of the next 40 bytes set to 0xFF/0xD1/0x80 or one of 16 cuts (terminator scans that run off the end); (text-number) every decimal number written in a seed (up to 150 per seed: palette counts and components, CSI parameters, @X / | codes) replaced by each of 14 extremes from 0 to 2^64-1 and a 26-digit value; (random) SAUCE tails from field extremes, structure-aware IcyDraw chunk mutation (decode zTXt, mutate payload, re-encode with valid CRC), LE field extremes, splices, inserts, deletes, repeats, pure random. Each case is one call of Buffer::from_bytes / SauceData::extract / BitFont::from_bytes / TheDrawFont::from_tdf_bytes / Palette::load_palette|import_palette under catch_unwind. distinct_nontrivial = distinct (api, extension, class, result, size, layers) fingerprints"
+        "seed corpus = output of every engine writer (14 formats, with/without SAUCE and comments, compressed/raw) on 10 generated documents incl. ice-mode 80-column pictures (ADF/IDF), an ATASCII buffer, multi-layer/custom-font/large-palette IcyDraw, a hand-made PETSCII file, a feature ANSI file, PSF1/PSF2/raw fonts, the shipped TDF font, 5 palette formats, a bare SAUCE record. cases: (truncation) every prefix length of every seed (dense for small files and in header/tail regions, strided beyond); (byte-corruption) every byte of the first 160 and last 140 bytes x {0,1,0x7F,0x80,0xFF,+1,-1}; (cross-extension) every seed under 27 extensions incl. unknown and upper-case; (grammar) token streams in the grammar of the format's own emulation (ANSI incl. modes/margins/macros, Avatar, PCBoard, Ctrl-A, Renegade, PETSCII, ATASCII, ASCII) loaded as files, with and without state prefix and SAUCE tail; (nul-free) every seed with all 0x00 bytes after offset 0/8/16/24/32/48/64 replaced by 0xFF, combined with each of the next 40 bytes set to 0xFF/0xD1/0x80 or one of 16 cuts (terminator scans that run off the end); (icy-chunk-byte) every one of the first 64 (thorough: 160) bytes of the decoded payload of every text chunk of every IcyDraw seed - incl. a hand-made one whose layer continues in a LAYER_0~1 chunk - x {0..=5, 0x7F, 0x80, 0xFF, +1, -1}, re-encoded into a valid PNG; (text-number) every decimal number written in a seed (up to 150 per seed: palette counts and components, CSI parameters, @X / | codes) replaced by each of 14 extremes from 0 to 2^64-1 and a 26-digit value; (random) SAUCE tails from field extremes, structure-aware IcyDraw chunk mutation (decode zTXt, mutate payload, re-encode with valid CRC), LE field extremes, splices, inserts, deletes, repeats, pure random. Each case is one call of Buffer::from_bytes / SauceData::extract / BitFont::from_bytes / TheDrawFont::from_tdf_bytes / Palette::load_palette|import_palette under catch_unwind. distinct_nontrivial = distinct (api, extension, class, result, size, layers) fingerprints"
     }
     fn meta(&self, _ctx: &Ctx) -> Value {
         json!({"floor_evaluations": 20000, "floor_distinct": 300, "plain_pass": "quick",
@@ -419,7 +471,24 @@ impl Prop for C02 {
                 eprintln!("seed {} api={} ext={} len={}", s.name, s.api, s.ext, s.bytes.len());
             }
         }
-        self.n_trunc + self.n_flip + self.n_cross + self.n_grammar + self.n_nulfree + self.n_textnum + ctx.tier.pick(60_000, 3_000_000)
+        self.icy_chunks.clear();
+        for (si, s) in self.seeds.iter().enumerate() {
+            if s.api != "buf" || s.ext != "icy" {
+                continue;
+            }
+            if let Some(chunks) = files::png_split(&s.bytes) {
+                for (ci, c) in chunks.iter().enumerate() {
+                    if let Some((_, payload)) = files::ztxt_decode(c) {
+                        let n = payload.len().min(if quick { 64 } else { 160 });
+                        if n > 0 {
+                            self.icy_chunks.push((si, ci, n));
+                        }
+                    }
+                }
+            }
+        }
+        self.n_icychunk = self.icy_chunks.iter().map(|c| c.2 as u64).sum::<u64>() * ICY_CHUNK_VALUES.len() as u64;
+        self.n_trunc + self.n_flip + self.n_cross + self.n_grammar + self.n_nulfree + self.n_textnum + self.n_icychunk + ctx.tier.pick(60_000, 3_000_000)
     }
     fn run_case(&mut self, ctx: &mut Ctx, k: u64) {
         let (case, class) = self.case_for(ctx, k);
